@@ -371,6 +371,10 @@ func allocBudget(c *Ctx, rule string, scope []*ssa.Function) {
 					}
 				}
 				pos := p.Pos(in.Pos())
+				if unknown && by > 0 && by <= 4096 && len(encl) == 1 && overExistingSlice(encl[0]) {
+					c.OK(rule, key, pos, fmt.Sprintf("at most %d bytes per element of a slice that is already in memory (the loop runs once per element): proportional to memory whose allocation is accounted for where it was made", by))
+					continue
+				}
 				if unknown {
 					c.Bad(rule, key, pos, "allocation inside a loop that does not consume input, and no bound for the size or the number of iterations can be derived from the types: memory is not tied to the input size")
 					continue
@@ -480,4 +484,48 @@ func checkC05(c *Ctx) {
 	loopTermination(c, "C05.4", scope)
 	missingTracksRule(c, "C05.5", readFrom)
 	runReadFromSim(c, "", "C05.5")
+}
+
+// overExistingSlice: the loop is counted by the length of a slice value (for i := range s / for i := 0; i < len(s); i++):
+// it runs once per element of something that already exists in memory.
+func overExistingSlice(l *loopInfo) bool {
+	for b := range l.Body {
+		if len(b.Instrs) == 0 {
+			continue
+		}
+		iff, ok := b.Instrs[len(b.Instrs)-1].(*ssa.If)
+		if !ok {
+			continue
+		}
+		exits := false
+		for _, s := range b.Succs {
+			if !l.Body[s] {
+				exits = true
+			}
+		}
+		cmp, ok := iff.Cond.(*ssa.BinOp)
+		if !exits || !ok || cmp.Op != token.LSS {
+			continue
+		}
+		if call, ok := cmp.Y.(*ssa.Call); ok {
+			if bi, ok := call.Call.Value.(*ssa.Builtin); ok && bi.Name() == "len" && len(call.Call.Args) == 1 {
+				if _, isSlice := call.Call.Args[0].Type().Underlying().(*types.Slice); isSlice {
+					// the index must step by one
+					if phi, ok := cmp.X.(*ssa.Phi); ok {
+						if k, ok := phiStep(phi, l); ok && k == 1 {
+							return true
+						}
+					}
+					if bo, ok := cmp.X.(*ssa.BinOp); ok && bo.Op == token.ADD {
+						if phi, ok := bo.X.(*ssa.Phi); ok {
+							if k, ok := phiStep(phi, l); ok && k == 1 {
+								return true
+							}
+						}
+					}
+				}
+			}
+		}
+	}
+	return false
 }
